@@ -137,6 +137,10 @@ Definition op_ne (t : ity) (a b : Z) : outcome := ret I8 (c_ne (t, a) (t, b)).
 (* plain `/` and `%` chosen when neither operand can be negative *)
 Definition op_cdiv (t : ity) (a b : Z) : outcome := ret t (c_div (t, a) (t, b)).
 Definition op_crem (t : ity) (a b : Z) : outcome := ret t (c_rem (t, a) (t, b)).
+(* operators.tdiv / operators.tmod (`///`, `%%%`) on two integers of the same type: the same bare C `/` and `%`
+   (operator_binary_op), whatever the signs and in both build modes - no helper, no check *)
+Definition op_tdiv (t : ity) (a b : Z) : outcome := op_cdiv t a b.
+Definition op_tmod (t : ity) (a b : Z) : outcome := op_crem t a b.
 (* the compile-time-count shortcut of operators.shl for a signed left type:
    ((T)((utype)a << N))   with 0 <= N < bitsize a literal *)
 Definition op_shl_const (m : cmode) (t : ity) (a n : Z) : outcome :=
